@@ -36,7 +36,7 @@ P2_KINDS = {
 }
 
 
-def setup(p1, p2):
+def setup(p1, p2, p3=None):
     sb = mdrun.Sandbox()
     src = sb.maildir('src'); A = sb.maildir('A'); B = sb.maildir('B')
     sb.add(src, 'new', ORIG, name=NAME, mtime=1500000000)
@@ -59,6 +59,22 @@ def setup(p1, p2):
     with open(script, 'w') as f:
         f.write('#!/bin/sh\n%s\necho $? > %s\n' % (cmd, stf))
     os.chmod(script, 0o755)
+    if p3 is not None:
+        C = sb.maildir('C')
+        script3 = os.path.join(sb.root, 'p3.sh'); stf3 = os.path.join(sb.root, 'p3.status')
+        r3 = {'move': 'move "%s"' % C, 'discard': 'discard', 'label': 'label "three"'}.get(p3)
+        if r3 is not None:
+            c3 = sb.write_conf(('maildir "%s" {\n\tmatch header "Subject" /message/ %s\n}\n' % (src, r3)).encode(), name='p3.conf')
+            cmd3 = 'env -u VFIO_PLAN LD_PRELOAD=%s VFIO_PID=4444 VFIO_LOG=%s/p3.log HOME=%s TMPDIR=%s LC_ALL=C %s -f %s 2>%s/p3.err' % (
+                SHIM, sb.root, sb.home, sb.tmp, exe, c3, sb.root)
+        elif p3 == 'extrename':
+            cmd3 = 'mv %s/new/%s %s/cur/ext3-renamed:2,S 2>/dev/null' % (src, NAME, C)
+        else:
+            cmd3 = 'rm %s/new/%s 2>/dev/null' % (src, NAME)
+        with open(script3, 'w') as f:
+            f.write('#!/bin/sh\n%s\necho $? > %s\n' % (cmd3, stf3))
+        os.chmod(script3, 0o755)
+        return sb, c1, script, stf, script3, stf3
     return sb, c1, script, stf
 
 
@@ -80,7 +96,9 @@ def run_p1(sb, c1, p1, plan=None):
 def survey(sb):
     """-> list of (maildir, sub, name, content) of every regular file in the three maildirs"""
     out = []
-    for md in ('src', 'A', 'B'):
+    for md in ('src', 'A', 'B', 'C'):
+        if not os.path.isdir(os.path.join(sb.root, md)):
+            continue
         for (sub, n), b in sb.snapshot(os.path.join(sb.root, md)).items():
             out.append((md, sub, n, b))
     return out
@@ -91,7 +109,7 @@ def intact(b):
     if MARK not in b:
         return False
     lines = b.split(b'\n')
-    kept = [l for l in lines if not (l.startswith(b'X-Label:') or l.startswith(b'X-One:'))]
+    kept = [l for l in lines if not (l.startswith(b'X-Label:') or l.startswith(b'X-One:'))]       # labels one / two / three share the X-Label line
     return b'\n'.join(kept) == ORIG
 
 
@@ -210,19 +228,86 @@ def run(ck):
                 break
         if len(ck.violations) > 5:
             break
+    if not q and len(ck.violations) <= 5:
+        three_parties(ck, rng, stats, 250)
     ck.coverage.update({
         'evaluations': stats['runs'],
         'distinct_nontrivial': stats['nontrivial'],
         'rule': 'P1 in {move A, cross-device move A, flag, label, add-header, discard} x P2 in {mdsort move B, cross-device move B, flag, label, discard, mv, rm} on one message; P2 runs to '
                 'completion before call k of P1 for every k (quick: <= 18 boundaries per pair incl. the first, the last, the one after the creation of P1\'s file and the '
-                'commit). non-trivial = a schedule whose final tree satisfied the property (then, if P2 met the original message, compared with the model\'s reachable outcomes)',
+                'commit; thorough: every boundary, plus 250 sampled schedules with THREE parties and two preemption points - P2 before call k1, P3 before call k2 >= k1 - judged by the monitor). non-trivial = a schedule whose final tree satisfied the property (then, if P2 met the original message, compared with the model\'s reachable outcomes)',
         'samples': samples,
         'traces_validated_against_impl': stats['model_checked'],
-        'schedules_run': stats['runs'], 'known_finding_hits': stats['known'],
+        'schedules_run': stats['runs'], 'known_finding_hits': stats['known'], 'three_party_schedules': stats.get('three', 0),
     })
     ck.assumptions += ['shim/libvfio.so runs the second party synchronously inside the interposed call (call-granularity interleaving)',
                        'thread-level simultaneity inside the kernel is not exercised']
     ck.notes.append('partial: single preemption point per run on the binary; the model theorems cover every schedule of two and three parties; F-16 excluded as known finding')
+
+
+def three_parties(ck, rng, stats, n):
+    """thorough tier: three parties, two preemption points (P2 before call k1 of P1, P3 before call k2 >= k1); monitor only"""
+    stats['three'] = 0
+    for i in range(n):
+        p1 = rng.choice(sorted(P1_KINDS)); p2 = rng.choice(sorted(P2_KINDS)); p3 = rng.choice(['move', 'discard', 'label', 'extrename', 'extdelete'])
+        sb, c1, script, stf = setup(p1, p2)
+        rc0, err0, trace0 = run_p1(sb, c1, p1)
+        calls0 = iorun.parse_trace(trace0)
+        sb.cleanup()
+        nc = len(calls0)
+        if nc < 2:
+            continue
+        created_k = commit_k = None
+        for c in calls0:
+            if c['call'] == 'openat' and 'CREAT|EXCL' in c['args'] and c['ok'] and '/src/' in c['args'] and created_k is None:
+                created_k = c['k']
+            if c['call'] in ('unlinkat', 'renameat') and c['ok'] and ('src/new/' + NAME) in c['args'] and commit_k is None:
+                commit_k = c['k']
+        k1 = rng.randrange(1, nc + 1); k2 = rng.randrange(k1, nc + 1)
+        sb, c1, script, stf, script3, stf3 = setup(p1, p2, p3)
+        rc1, err1, trace = run_p1(sb, c1, p1, plan='%d:run=%s,%d:run=%s' % (k1, script, k2, script3))
+        stats['runs'] += 1; stats['three'] += 1
+        st2 = open(stf).read().strip() if os.path.exists(stf) else None
+        st3 = open(stf3).read().strip() if os.path.exists(stf3) else None
+        files = survey(sb)
+        copies = [f for f in files if intact(f[3])]
+        junk = [(md, sub, nm, len(b)) for md, sub, nm, b in files if not intact(b)]
+
+        def unlinked_foreign(path, pid):
+            lines = open(path, errors='replace').read().splitlines() if os.path.exists(path) else []
+            return any(re.match(r'^\d+ unlinkat .* = 0$', l) and ('.%s_' % pid) not in l for l in lines)
+        removers_ok = (p1 == 'discard' and unlinked_foreign(os.path.join(sb.root, 'p1.log'), '4242')) or \
+                      (p2 == 'discard' and unlinked_foreign(os.path.join(sb.root, 'p2.log'), '4343')) or (p2 == 'extdelete' and st2 == '0') or \
+                      (p3 == 'discard' and unlinked_foreign(os.path.join(sb.root, 'p3.log'), '4444')) or (p3 == 'extdelete' and st3 == '0')
+        why = None
+        if junk:
+            why = 'empty / partial / foreign file(s) left behind: %r' % junk
+        elif len(copies) > 1:
+            why = 'the message exists %d times: %r' % (len(copies), [(c[0], c[1], c[2]) for c in copies])
+        elif len(copies) == 0 and not removers_ok:
+            why = 'the message is gone although no deleting party removed it (exits %s, %s, %s)' % (rc1, st2, st3)
+        elif rc1 < 0 or rc1 > 1:
+            why = 'P1 terminated abnormally (%d)' % rc1
+        if why:
+            walkers = [(P2_KINDS[p2][0] is not None, k1), (p3 in ('move', 'discard', 'label'), k2)]
+            # a walker (P2, P3) inside P1's window, or P3 walking while a label copy written by P2 ... (P2 has finished: committed)
+            in_window = P1_KINDS[p1][1] == 'write' and created_k is not None and commit_k is not None and \
+                        any(w and created_k < k <= commit_k for w, k in walkers)
+            key = 'F-16-walker-selects-uncommitted-copy'
+            rep = {'p1': p1, 'p2': p2, 'p3': p3, 'k1': k1, 'k2': k2, 'p1_exit': rc1, 'p2_exit': st2, 'p3_exit': st3,
+                   'files': [(md, sub, nm, len(b)) for md, sub, nm, b in files], 'p1_stderr': err1[-300:].decode(errors='replace')}
+            if in_window and ck.is_known(key):
+                stats['known'] += 1
+                ck.known_finding(key, 'three parties: P1 %s, P2 %s at %d, P3 %s at %d' % (p1, p2, k1, p3, k2))
+            else:
+                stats['viol'] += 1
+                if stats['viol'] <= 4:
+                    ck.violation('P1 = mdsort %s, P2 = %s before call %d, P3 = %s before call %d of P1: %s' % (p1, p2, k1, p3, k2, why), rep)
+        else:
+            stats['nontrivial'] += 1
+        sb.cleanup()
+        if len(ck.violations) > 5:
+            break
 
 
 def replay(ck, rp):
